@@ -87,6 +87,7 @@ NAMES = {
     "C16": ["XGROUP", "XREADGROUP", "XACK", "XCLAIM", "XPENDING"],
     "C19": ["SCAN", "HSCAN", "SSCAN", "ZSCAN"],
 }
+NAMES["C12"] = sorted(set(sum((NAMES[p] for p in ("C01", "C02", "C03", "C04", "C15", "C16")), [])))
 
 
 def dispatch_arms(ctx):
